@@ -52,7 +52,7 @@ def run(tier):
                         body = G.render(rng, v, cfg, rich=False)
                         docs.append((b"[" + b" " * nsp + body + b" 1]") if wrap == "vec2" else (b"{:title" + b" " * (nsp + 1) + body + b"}"))
         # the list-based model computes positions by walking the remaining input (quadratic in the document size)
-        cap = 25000 if tier == "quick" else 150000
+        cap = 25000 if tier == "quick" else 60000
         keep = [i for i, d in enumerate(docs) if len(d) <= cap]
         vals = [vals[i] for i in keep]
         docs = [docs[i] for i in keep]
@@ -67,7 +67,8 @@ def run(tier):
             found = True
             rep.finding("crash", "reading a well-formed document crashed", {"kind": "read", "config": cfg, "input_hex": C.hexs(docs[idx]), "stderr": err[:3000]})
         for i in diffs[:5]:
-            rep.broken_obligation("correspondence/read", "model %r vs code %r on %r" % ((model[i] or "")[:200], (impl[i] or "")[:200], docs[i][:200]), False)
+            rep.broken_obligation("correspondence/read", "model %r vs code %r on %r" % ((model[i] or "")[:200], (impl[i] or "")[:200], docs[i][:200]), False,
+                                  extra={"config": cfg, "input_hex": C.hexs(docs[i]), "model": model[i], "code": impl[i]})
         for i, a in enumerate(impl):
             if a is None:
                 continue
